@@ -21,7 +21,7 @@ FORM = ('E (exact): the recorded rewrite program is replayed on the Gallina mode
         'set-intersection iteration orders of add are recorded inputs checked to enumerate the intersection')
 RULE = ('random consistent layered graphs: length 1..5, interior widths 1..4, every node on a start-end path, parallel edges, '
         'edges with 1-3 operators and coefficients in {-2..2, 0, +-i} from a small per-layer palette (so equal opics and '
-        'cancellations are frequent), node charges in {0,1}, node/edge ids sampled from a small range with negatives in random '
+        'cancellations are frequent), node charges in {0,1} (sometimes encoded pairs 65537, 131072), node/edge ids sampled from a small range with negatives in random '
         'dictionary order; tries (operator trees, one node per prefix) and outputs of from_opchains / from_optrees; the second '
         'graph of add has the same length and ids drawn from the same range (collisions are the rule). Rewrite programs of '
         '3-10 (quick) / up to 30 (thorough) steps: simplify, merge_edges on a harness-found mergeable pair (either branch, '
@@ -125,6 +125,8 @@ def gen_layered(rng, L, canonical=False):
     noids = rng.randint(1, 3)
     widths = [1] + [rng.randint(1, 4) for _ in range(L - 1)] + [1]
     qs = [0, 0, 0, 1] if rng.random() < 0.6 else [0]
+    if rng.random() < 0.15:
+        qs = [0, 0, 65537, 65537, 131072]      # encoded charge pairs (N << 16) + S: equal values that are not the same int object
     layers_q = [[rng.choice(qs) for _ in range(w)] for w in widths]
     layers_q[0] = [0]
     ae = []
@@ -155,6 +157,7 @@ def gen_trie(rng, L, canonical=False):
     near_layer = rng.randrange(L) if rng.random() < 0.2 else None
     pals = [_palette(rng, noids, near=(t == near_layer)) for t in range(L)]
     useq = rng.random() < 0.5
+    bigq = [0, 65537, 65537, 131072] if rng.random() < 0.15 else None
     layers_q = [[0]] + [[] for _ in range(L - 1)] + [[0]]
     ae = []
     budget = [rng.randint(4, 14)]
@@ -167,7 +170,7 @@ def gen_trie(rng, L, canonical=False):
             if t == L - 1:
                 ae.append((t, i, 0, op))
             else:
-                layers_q[t + 1].append(rng.choice([0, 0, 1]) if useq else 0)
+                layers_q[t + 1].append(rng.choice(bigq if bigq else [0, 0, 1]) if useq else 0)
                 j = len(layers_q[t + 1]) - 1
                 ae.append((t, i, j, op))
                 rec(t + 1, j)
